@@ -3,7 +3,7 @@
 # Runs from a private snapshot of /verif (/tmp/vsnap) against a private copy of /repo's HEAD (/tmp/rsnap), so that neither
 # edits to /verif nor other runs that read /repo are disturbed.  The registered checks themselves always use /repo.
 SNAP=/tmp/vsnap${SNAPID:-}; RS=/tmp/rsnap${SNAPID:-}
-mkdir -p $SNAP && rsync -a --delete --exclude work --exclude harness/target --exclude .git --exclude replays /verif/ $SNAP/
+mkdir -p $SNAP && rsync -a --delete --exclude work --exclude 'harness/target*' --exclude .git --exclude replays /verif/ $SNAP/
 rm -rf $RS && git -C /repo worktree prune && git -C /repo worktree add -q --detach $RS HEAD && cp /repo/Cargo.lock $RS/
 sed -i "s#\"/repo\"#\"$RS\"#" $SNAP/lib/vlib.py $SNAP/harness/Cargo.toml $SNAP/harness/cfgprobe/Cargo.toml $SNAP/harness/nostdprobe/Cargo.toml
 sed -i "s#/repo/#$RS/#g" $SNAP/bin/setup
